@@ -8,6 +8,9 @@ R17.2 every mutation of the iterated sets inside such a loop is noticed: either 
 R17.3 every "all of"/"any of" summary flag (a named bool given a constant before a loop, assigned in the loop, read after
       it) only ever moves away from its initial value inside the loop: an overwrite with a computed value makes the last
       iteration decide alone (e.g. a production counted as fully costed because its LAST symbol is)
+R17.4 wherever FIRST(Y) of a production symbol Y is read as Y's contribution to a set (FIRST of a sequence, FOLLOW of the
+      symbol before it), nullable(Y) of the same Y is consulted and tested: whether what stands after Y contributes too
+      depends on it
 """
 from mirlib import *
 
@@ -19,9 +22,9 @@ META = {
                    'raised (R17.1) and every mutation of non-local state is followed by raising the flag or by a test of its '
                    'change result one outcome of which raises it (R17.2). Breaking either lets the iteration stop before the '
                    'least fixed point, i.e. yields FIRST/FOLLOW/cost values that are too small - a necessary condition for '
-                   'exactness and the way such analyses typically go wrong. NOT decided: that the transfer functions '
-                   'themselves are right (e.g. on this tree FOLLOW ignores what follows a nullable neighbour: `S: A B \'c\'; '
-                   'B: \'b\' | ;` gives c not in FOLLOW(A) - found by reading, invisible to these rules), reachability, '
+                   'exactness and the way such analyses typically go wrong. R17.4: wherever FIRST(Y) of a production symbol is read as that symbol\'s contribution, nullable(Y) of the same Y is tested '
+                   '(found the FOLLOW defect fixed in /repo 2a78056). NOT decided: that the transfer functions are right beyond '
+                   'that, reachability, '
                    'minimal-sentence generation.',
 }
 
@@ -243,6 +246,62 @@ def r173(facts, res):
     res.floor(R, 'loop summary flags', n, 8)
 
 
+FIRST_READS = {'firsts', 'is_set'}          # YaccFirsts::firsts(ridx) / is_set(ridx, tidx)
+
+
+def r174(facts, res):
+    """Wherever FIRST(Y) of a production symbol Y is read as that symbol's contribution to a set, nullable(Y) of the SAME Y
+    is consulted and tested in the same function: whether the symbols after Y contribute too depends on it."""
+    R = 'R17.4'
+    n = 0
+    for b in facts.lib_bodies(['cfgrammar']):
+        if b.from_expansion or not b.path.startswith(('cfgrammar::yacc::firsts::', 'cfgrammar::yacc::follows::')):
+            continue
+        def sym_payload(op):
+            """named local holding the rule index taken out of a `Symbol::Rule(..)` of a production, or None"""
+            l = op_local(op)
+            if l is None:
+                return None
+            r, projs, via = b.root(l, through=(), stop_named=True)
+            if not b.name_of(r):
+                return None
+            # the named local itself is assigned from a (.. as Rule).0 projection
+            for bb, kind, rv in b.defs().get(r, []):
+                if kind == 'stmt' and 'use' in rv:
+                    pl = op_place(rv['use'])
+                    if pl and any(isinstance(q, dict) and q.get('downcast') is not None and q.get('name') == 'Rule' for q in pl['p']):
+                        return r
+            return None
+        eps = {}
+        for bb, t in b.calls_named('is_epsilon_set'):
+            if 'YaccFirsts' not in (cpath(t) or '') or len(t['args']) < 2:
+                continue
+            y = sym_payload(t['args'][1])
+            tested = t['ret'] is not None and b.term(t['ret'])['k'] == 'switch'
+            # `!x` goes through a Not before the switch
+            if not tested and t['ret'] is not None:
+                tested = any(b.term(x)['k'] == 'switch' for x in [t['ret']])
+            if y is not None:
+                eps.setdefault(y, []).append((bb, tested))
+        for bb, t in b.calls():
+            if cname(t) not in FIRST_READS or 'yacc::firsts::YaccFirsts' not in (cpath(t) or '') or len(t['args']) < 2:
+                continue
+            y = sym_payload(t['args'][1])
+            if y is None:
+                continue
+            n += 1
+            key = '%s/%s(%s)' % (strip_generics(b.path), cname(t), b.name_of(y))
+            if any(tested for _bb, tested in eps.get(y, [])):
+                res.ok(R, key, loc_of(b, bb), 'FIRST(%s) is read and nullable(%s) is tested in the same scan' % (b.name_of(y), b.name_of(y)))
+            else:
+                others = sorted({b.name_of(k) for k in eps})
+                res.bad(R, key, loc_of(b, bb), 'FIRST(%s) is merged as the contribution of symbol `%s`, but nullable(%s) is never consulted (nullable is tested only for %s): '
+                        'when `%s` can derive the empty string, what stands after it in the production is ignored' % (
+                            b.name_of(y), b.name_of(y), b.name_of(y), others or 'nothing', b.name_of(y)), {'function': b.path})
+    res.floor(R, 'reads of FIRST(symbol) in the FIRST/FOLLOW computations', n, 2)
+
+
 def run(facts, res):
     r171_172(facts, res)
     r173(facts, res)
+    r174(facts, res)
